@@ -98,4 +98,12 @@ PROPS = {
                                      ".jar/.zip outs, type filters (C12), remote plugins, and disk-level failures of the final flush (C15) are not modelled"],
         "assumptions": ["strings are valid UTF-8", "response side: generated output names are prefix-free (no name is both a file and a directory)", "no symlinks inside out directories"],
     },
+    "C12": {
+        "harness": "c12", "protocol": "c12", "level": "proof", "stateful": False,
+        "rule": "Witness workspaces of the recorded defects first, then generated workspaces (2-6 files: nested types, maps, oneofs, proto3 optional, proto2 groups/extension ranges/extensions, custom options with Any payloads, public imports, type-less files, services sharing request/response types, target + non-target module, a comment on every element) x 8 generated filters each (message/enum/service/method/extension/package names as include and/or exclude, missing names, option flags, in-place or copying).  One protocol line per (image, filter): the model must reproduce error classes or the link verdict, kept elements per file, dependency lists and every remapped source location with its comment tag.  A line is non-trivial when the filter succeeded with a non-empty image; distinct = distinct protocol lines.",
+        "trusted_base": COMMON_TB + ["image -> abstract element graph translator in harness/cmd/c12/extract.go (names interned, references resolved, option uses and Any payloads read through protoreflect)",
+                                     "protocompile / buf image builder produce the descriptors; protodesc.NewFiles is the reference for 'links'",
+                                     "Go map iteration order is not modelled: includes are visited in sorted order and addExtensions over a snapshot; workspaces where that could matter are detected statically and left to the oracle"],
+        "assumptions": ["images are well-formed (every reference resolves inside the image)", "no weak imports"],
+    },
 }
